@@ -180,6 +180,8 @@ def transfer_measures(ctx, rule='C02.R1', units=True):
 
 
 def run(ctx):
+    from .configtime import decisions_not_taken_on_display_values as _coarse
+    _coarse(ctx, 'C02.R3', ('Container', 'Plate', 'PlateSlicer', 'Recipe', 'RecipeStep'))
     from .configtime import no_writes_through_get as _no_get_writes
     _no_get_writes(ctx, 'C02.R3')
     from .configtime import no_identity_test_against_literals as _no_is_literal
@@ -211,6 +213,10 @@ def run(ctx):
 
     # ---- R3 quantity pass-through, one call per paired well
     passthrough(ctx)
+    # two regions of one plate: both write-backs land only when the regions are disjoint (else a well receives or loses
+    # another amount than the requested one)
+    from . import c01 as _c01
+    _c01.shared_plate_copy(ctx, 'C02.R3')
     return {'explanation': 'R1: each unit branch of the transfer computes ratio = requested / total with the numerator '
                            'derived from the user quantity and the denominator from the source, both in the same unit '
                            '(units engine: the ratio is dimensionless with scale 1 on all paths and kinds), and the '
